@@ -99,3 +99,47 @@ Proof.
   rewrite A, B in Hc. cbn in Hc. now rewrite app_nil_r in Hc.
 Qed.
 Print Assumptions C20_reclaimed_lost_nothing.
+
+(* ---- shrinking the backend buffer: the slot array of TransitEventBuffer (M-TEB) ---- *)
+From Quill Require TEB.TEBModel TEB.TEBProofs TieTEB.
+
+(* T-src: the TransitEventBuffer methods are the ones M-TEB mirrors (variant selected by the source = the proved one);
+   the backend requests a shrink when the frontend queue was shrunk and tries it when everything is empty *)
+Theorem C20_tie_transit_buffer : Quill.TieTEB.TEB_tie_holds.
+Proof. exact Quill.TieTEB.TEB_tie. Qed.
+Print Assumptions C20_tie_transit_buffer.
+
+(* in every reachable buffer (any initial capacity, any history of commits, abandoned fills, pops, shrink requests
+   and shrink attempts): try_shrink() changes no queued event; it acts exactly when a shrink was requested and the
+   buffer is empty, and the capacity is then the initial capacity (the requested one rounded up to a power of two) *)
+Theorem C20_backend_buffer_shrink_exact : forall (A : Type) (dflt : A) (c0 : N) (ops : list (TEB.TEBModel.top A)),
+  let s := TEB.TEBProofs.teb_exec A dflt (TEB.TEBModel.teb_init A dflt c0) ops in
+  let s' := TEB.TEBModel.teb_step A dflt TEB.TEBModel.tcfg_good s TEB.TEBModel.OShrink in
+  TEB.TEBModel.teb_abs A dflt s' = TEB.TEBModel.teb_abs A dflt s /\
+  (if TEB.TEBModel.shr s && TEB.TEBModel.teb_empty A s
+   then TEB.TEBModel.cap s' = TEB.TEBModel.icap s /\ TEB.TEBModel.shr s' = false else s' = s) /\
+  TEB.TEBModel.icap s = TEB.TEBModel.tnext_pow2 c0.
+Proof. exact TEB.TEBProofs.teb_shrink_exact. Qed.
+Print Assumptions C20_backend_buffer_shrink_exact.
+
+(* the whole history, shrinks included, shows what a plain list shows: nothing lost, duplicated or reordered *)
+Theorem C20_backend_buffer_refines_fifo : forall (A : Type) (dflt : A) (c0 : N) (ops : list (TEB.TEBModel.top A)),
+  TEB.TEBModel.teb_run A dflt TEB.TEBModel.tcfg_good (TEB.TEBModel.teb_init A dflt c0) ops =
+  TEB.TEBModel.fifo_run A (TEB.TEBModel.fifo_init A c0) ops.
+Proof. exact TEB.TEBProofs.teb_refines_fifo. Qed.
+Print Assumptions C20_backend_buffer_refines_fifo.
+
+(* the emptiness guard of try_shrink() is needed: without it queued events are lost *)
+Theorem C20_backend_buffer_refuted_shrink_nonempty :
+  exists c0 ops, TEB.TEBProofs.differs TEB.TEBProofs.K_shrink_any c0 ops = true.
+Proof. exact TEB.TEBProofs.teb_refuted_shrink_nonempty. Qed.
+Print Assumptions C20_backend_buffer_refuted_shrink_nonempty.
+
+(* non-vacuity: a history in which the ring wraps, grows while wrapped and shrinks back *)
+Theorem C20_backend_buffer_example :
+  map TEB.TEBModel.teb_enc_obs (TEB.TEBModel.teb_run N 0 TEB.TEBModel.tcfg_good (TEB.TEBModel.teb_init N 0 2)
+    [TEB.TEBModel.OPut 1; TEB.TEBModel.OPop; TEB.TEBModel.OPut 2; TEB.TEBModel.OPut 3; TEB.TEBModel.OPut 4;
+     TEB.TEBModel.OReq; TEB.TEBModel.OPop; TEB.TEBModel.OPop; TEB.TEBModel.OPop; TEB.TEBModel.OShrink])
+  = [[2;1;2]; [0;0;2]; [3;1;2]; [3;2;2]; [3;3;4]; [3;3;4]; [4;2;4]; [5;1;4]; [0;0;4]; [0;0;2]].
+Proof. exact TEB.TEBProofs.teb_history_wraps_grows_shrinks. Qed.
+Print Assumptions C20_backend_buffer_example.
